@@ -109,10 +109,13 @@ var watcherTable = []struct {
 	{pkgProposalCtl, "ConfigurationWatcher", []string{
 		"controller.NewID(store/v2/proposal.NewID(@E.Configuration.TargetID,@E.Configuration.Index))",
 		"controller.NewID(store/v2/proposal.NewID(@E.Configuration.TargetID,@E.Configuration.Status.Applied.Index))",
-		// before the first apply Applied.Index is 0 and after a rollback Configuration.Index has moved back: the
-		// proposals that wait for a target that connects late are reached from the last proposed one (F52)
-		"controller.NewID(store/v2/proposal.NewID(@E.Configuration.TargetID,@E.Configuration.Status.Proposed.Index))"}},
-	{pkgTransactionCtl, "Watcher", []string{"controller.NewID(@E.Transaction.Index)"}},
+		// before the first apply Applied.Index is 0 and after a rollback Configuration.Index has moved back; a
+		// committed proposal without an apply phase pokes nobody: every proposal from min(Applied, Committed)+1 up
+		// to Proposed.Index is woken (F52, F56) — the two first-iteration forms of that loop's send
+		"range:controller.NewID(store/v2/proposal.NewID(@E.Configuration.TargetID,(@E.Configuration.Status.Applied.Index + 1)))",
+		"range:controller.NewID(store/v2/proposal.NewID(@E.Configuration.TargetID,(@E.Configuration.Status.Committed.Index + 1)))"}},
+	// N+1 waits for N to leave INITIALIZING: woken by N's events, not only by the Requeue of the pass that wrote (F58)
+	{pkgTransactionCtl, "Watcher", []string{"controller.NewID(@E.Transaction.Index)", "controller.NewID((@E.Transaction.Index + 1))"}},
 	{pkgTransactionCtl, "ProposalWatcher", []string{"controller.NewID(@E.Proposal.TransactionIndex)"}},
 	{pkgConfigCtl, "Watcher", []string{"controller.NewID(@E.Configuration.ID)"}},
 	{pkgConfigCtl, "TopoWatcher", []string{"controller.NewID(store/v2/configuration.NewID(config/v2.TargetID(@E.Object.ID),config/v2.TargetType(@CFGBL.Type),config/v2.TargetVersion(@CFGBL.Version)))"}},
@@ -153,6 +156,10 @@ func watcherMapsAs(c *engine.Ctx, id, only string) {
 					// a store event is forwarded whatever its type and content: the reconcilers rely on
 					// UPDATED events (the write that beat theirs) as much as on CREATED/REPLAYED ones
 					for _, l := range engine.CondsBefore(p, i) {
+						if ls := l.String(); strings.Contains(ls, ".Status.Applied.Index") && strings.Contains(ls, ".Status.Committed.Index") ||
+							strings.Contains(ls, ".Status.Proposed.Index") {
+							continue // the bounds of the range of proposals that are woken (from min(Applied, Committed)+1 to Proposed)
+						}
 						if strings.Contains(l.String(), "recv(^eventCh)") {
 							o.Fail(&engine.Violation{Key: w.pkg + "." + w.recv + "|forwarding depends on the event", Pos: c.P.Pos(e.Pos), Func: w.recv + ".Start",
 								Msg: "the watcher forwards the id only under " + c.Render(l.String()) + ": store events of the other kinds no longer wake the reconciler (a reconciler that lost a write race returns quietly and waits for exactly such an event)"})
@@ -163,8 +170,37 @@ func watcherMapsAs(c *engine.Ctx, id, only string) {
 		}
 		o.Site(w.pkg + "." + w.recv)
 		want := map[string]bool{}
+		rangeForms := map[string]bool{}
 		for _, s := range w.sends {
+			if strings.HasPrefix(s, "range:") {
+				rangeForms[al.Expand(strings.TrimPrefix(s, "range:"))] = true
+				continue
+			}
 			want[al.Expand(s)] = true
+		}
+		if len(rangeForms) > 0 {
+			// both first-iteration forms must be sent, inside a loop bounded by Proposed.Index
+			for f := range rangeForms {
+				o.Eval(1)
+				if _, ok := got[f]; !ok {
+					o.Fail(&engine.Violation{Key: w.pkg + "." + w.recv + "|missing range from " + al.Render(f), Pos: w.pkg, Func: w.recv + ".Start",
+						Msg: "the watcher does not wake the proposals from min(Applied.Index, Committed.Index)+1 upwards: " + al.Render(f) + " is not sent"})
+				}
+			}
+			bounded := false
+			for _, p := range paths {
+				if p.Lit == nil || !strings.HasSuffix(p.Root.Name(), "."+w.recv+".Start") {
+					continue
+				}
+				for i := range p.Events {
+					if e := &p.Events[i]; e.Kind == engine.EvCond && strings.HasSuffix(e.Lit.R, al.Expand("@E.Configuration.Status.Proposed.Index")) && e.Lit.Mask&4 == 0 {
+						bounded = true
+					}
+				}
+			}
+			if !bounded {
+				o.Fail(&engine.Violation{Key: w.pkg + "." + w.recv + "|range bound", Pos: w.pkg, Func: w.recv + ".Start", Msg: "the range of proposals woken by a configuration event is not bounded by Proposed.Index (inclusive)"})
+			}
 		}
 		var gl []string
 		for g := range got {
@@ -173,7 +209,7 @@ func watcherMapsAs(c *engine.Ctx, id, only string) {
 		sort.Strings(gl)
 		for _, g := range gl {
 			o.Eval(1)
-			if !want[g] {
+			if !want[g] && !rangeForms[g] {
 				o.Fail(&engine.Violation{Key: w.pkg + "." + w.recv + "|sends " + al.Render(g), Pos: got[g], Func: w.recv + ".Start",
 					Msg: "watcher maps an event to an id that is not in the frozen table: " + al.Render(g)})
 			}
